@@ -132,6 +132,8 @@ class Registry(object):
     return self.events
 
   def open_mode(self, ch):
+    if ch.serial < getattr(self, 'ok_first', 0):
+      return 'ok'
     return self.open_script.get(ch.serial, self.default_open)
 
   def on_request(self, ch, rid, sink_stack, msg):
